@@ -44,3 +44,37 @@
 (declare-fun nz2up ((Array Int (Array Int Int)) Int) Int)
 (assert (forall ((H (Array Int (Array Int Int)))) (! (= (nz2up H 0) 0) :pattern ((nz2up H 0)))))
 (assert (forall ((H (Array Int (Array Int Int))) (i Int)) (! (=> (>= i 0) (= (nz2up H (+ i 1)) (+ (nz2up H i) (nzup (select H i) 256)))) :pattern ((nz2up H (+ i 1))))))
+; ---- rejection samplers (specification: ExpandA's RejNTTPoly / CoeffFromThreeBytes, ExpandS's RejBoundedPoly /
+; CoeffFromHalfByte), as functions of the candidate index over a byte string B read from offset o ----
+; ucand(B,o,j): the j-th 23-bit candidate; accepted iff < q
+(define-fun ucand ((B (Array Int Int)) (o Int) (j Int)) Int
+  (+ (select B (+ o (* 3 j))) (* 256 (select B (+ o (* 3 j) 1))) (* 65536 (mod (select B (+ o (* 3 j) 2)) 128))))
+; ucnt(B,o,j): number of accepted candidates among the first j
+(declare-fun ucnt ((Array Int Int) Int Int) Int)
+;@ needs ucnt
+(assert (forall ((B (Array Int Int)) (o Int)) (! (= (ucnt B o 0) 0) :pattern ((ucnt B o 0)))))
+;@ needs ucnt
+(assert (forall ((B (Array Int Int)) (o Int) (j Int)) (! (=> (>= j 0) (= (ucnt B o (+ j 1)) (+ (ucnt B o j) (ite (< (ucand B o j) DQ) 1 0)))) :pattern ((ucnt B o (+ j 1))))))
+; enib(B,o,j): the j-th half-byte candidate (low nibble first); accepted iff < 15; value eta - (t mod 5) with eta = 2
+(define-fun enib ((B (Array Int Int)) (o Int) (j Int)) Int
+  (ite (= (mod j 2) 0) (mod (select B (+ o (div j 2))) 16) (div (select B (+ o (div j 2))) 16)))
+(define-fun eval2 ((t Int)) Int (- 2 (mod t 5)))
+(declare-fun ecnt ((Array Int Int) Int Int) Int)
+;@ needs ecnt
+(assert (forall ((B (Array Int Int)) (o Int)) (! (= (ecnt B o 0) 0) :pattern ((ecnt B o 0)))))
+;@ needs ecnt
+(assert (forall ((B (Array Int Int)) (o Int) (j Int)) (! (=> (>= j 0) (= (ecnt B o (+ j 1)) (+ (ecnt B o j) (ite (< (enib B o j) 15) 1 0)))) :pattern ((ecnt B o (+ j 1))))))
+; ecntS / ucntS: same functions, with the unfolding step available at any index j > 0 written as a plain term
+; (the step axioms above trigger only on indices of the syntactic form j+1)
+(declare-fun ecntS ((Array Int Int) Int Int) Int)
+;@ needs ecntS
+(assert (forall ((B (Array Int Int)) (o Int) (j Int))
+  (! (and (= (ecntS B o j) (ecnt B o j))
+          (=> (> j 0) (= (ecnt B o j) (+ (ecnt B o (- j 1)) (ite (< (enib B o (- j 1)) 15) 1 0)))))
+     :pattern ((ecntS B o j)))))
+(declare-fun ucntS ((Array Int Int) Int Int) Int)
+;@ needs ucntS
+(assert (forall ((B (Array Int Int)) (o Int) (j Int))
+  (! (and (= (ucntS B o j) (ucnt B o j))
+          (=> (> j 0) (= (ucnt B o j) (+ (ucnt B o (- j 1)) (ite (< (ucand B o (- j 1)) DQ) 1 0)))))
+     :pattern ((ucntS B o j)))))
